@@ -91,6 +91,8 @@ func cmdList(args []string) int {
 		c := ""
 		if e.contracts[n] != nil {
 			c = " [contract]"
+		} else if fn := e.funcs[n]; fn != nil && fn.Blocks != nil && e.dagInlineable(fn) {
+			c = " [inlined at call sites: loop-free helper]"
 		}
 		fmt.Println(n + c)
 	}
